@@ -40,6 +40,12 @@ type params struct {
 	EmptyBody   bool
 	Keep        []string
 	Sequential2 bool // a further duplicate issued after all concurrent ones returned
+	// Warm: requests served one after the other BEFORE the concurrent phase (their keys are then recorded); the
+	// concurrent requests carrying one of these keys are replays and must get the recorded answer without running
+	// the handler. Outer: a middleware in front of idempotency that yields after c.Next() (work done while the
+	// replayed response is not yet written out).
+	Warm  []reqSpec
+	Outer bool
 }
 
 // injected storage: yields at every call, may fail
@@ -127,6 +133,7 @@ func runScenario(p params) func(e *schedx.Exec) *schedx.Outcome {
 			n++
 		}
 		obs := make([]respObs, n)
+		warmObs := map[string]respObs{}
 		var mlock *idempotency.MemoryLock
 		lockedKeysAtEnd := -1
 		res := verifrt.Run(e.Chooser(), verifrt.Options{MaxSteps: 5000, StateKey: func() string {
@@ -142,6 +149,13 @@ func runScenario(p params) func(e *schedx.Exec) *schedx.Outcome {
 				cfg.Lock = &failingLocker{inner: mlock, e: e, log: &faultLog}
 			}
 			app := fiber.New()
+			if p.Outer {
+				app.Use(func(c fiber.Ctx) error {
+					err := c.Next()
+					verifrt.YieldOn("outer.after-next", hs)
+					return err
+				})
+			}
 			app.Use(idempotency.New(cfg))
 			h := func(c fiber.Ctx) error {
 				rid := c.Get("X-Req")
@@ -190,6 +204,13 @@ func runScenario(p params) func(e *schedx.Exec) *schedx.Outcome {
 				}
 				obs[i] = o
 			}
+			for _, rs := range p.Warm {
+				do(0, rs)
+				o := obs[0]
+				o.Ran = hs.ranFor[rs.ID]
+				warmObs[rs.Key] = o
+				obs[0] = respObs{}
+			}
 			for i, rs := range p.Reqs {
 				i, rs := i, rs
 				verifrt.GoNamed(rs.ID, false, func() { do(i, rs) })
@@ -225,7 +246,51 @@ func runScenario(p params) func(e *schedx.Exec) *schedx.Outcome {
 				setFault = true
 			}
 		}
-		if len(res.Panics) == 0 && !res.Deadlock && !res.Horizon {
+		if len(p.Warm) > 0 && len(res.Panics) == 0 && !res.Deadlock && !res.Horizon {
+			// replay oracle: a request whose key was recorded in the warm phase gets exactly the recorded answer and
+			// does not run the handler; a request with a fresh key runs it once
+			for k, w := range warmObs {
+				if w.Status != 201 || w.Ran != 1 {
+					viol("warm-request-not-executed", "a first request with a key did not run the handler once", w, k)
+				}
+			}
+			for i, rs := range p.Reqs {
+				o := obs[i]
+				w, recorded := warmObs[rs.Key]
+				if !recorded || rs.Method != "POST" || rs.Key == "" {
+					if o.Ran != 1 || o.Status != 201 || (!p.EmptyBody && o.Body != fmt.Sprintf("exec#%d of %s", hs.started[rs.Key], firstChar(rs.Key)) && o.Body != fmt.Sprintf("exec#1 of %s", firstChar(rs.Key))) {
+						viol("bystander-affected kind="+bystanderKind(rs)+" phase=replay", "a request with a fresh key / without key / with a safe method must run its handler exactly once and get its own answer", o, "ran=1 status=201")
+					}
+					continue
+				}
+				if o.Ran != 0 {
+					viol("replay-ran-handler", "a request with a recorded key ran the handler again", o, w)
+				}
+				diff := ""
+				switch {
+				case o.Status != w.Status:
+					diff = "status"
+				case o.Body != w.Body:
+					diff = "body"
+				case !sameMulti(o.XA, w.XA):
+					diff = "header:X-A"
+				case p.Keep == nil && !sameMulti(o.Cookie, w.Cookie):
+					diff = "header:Set-Cookie"
+				case p.Keep == nil && o.CT != w.CT:
+					diff = "content-type"
+				}
+				if diff != "" {
+					other := "none"
+					for _, x := range warmObs {
+						if x.ID != w.ID && diff == "body" && o.Body == x.Body {
+							other = "another-key's-answer"
+						}
+					}
+					viol("replay-answer-differs field="+diff+" got="+other, "a request with a recorded key was answered differently from the recorded execution", o, w)
+				}
+			}
+		}
+		if len(p.Warm) == 0 && len(res.Panics) == 0 && !res.Deadlock && !res.Horizon {
 			if !setFault {
 				for k, c := range hs.completed {
 					if c > 1 {
@@ -324,7 +389,7 @@ func runScenario(p params) func(e *schedx.Exec) *schedx.Outcome {
 			st = append(st, fmt.Sprintf("%d/%d", o.Status, o.Ran))
 		}
 		out.Class = fmt.Sprintf("status/ran=%s completedA=%d faults=%d deadlock=%v panic=%v", strings.Join(st, ","), hs.completed[keyA], len(faultLog), res.Deadlock, len(res.Panics) > 0)
-		out.Interesting = hs.started[keyA] >= 1 && e.X.Spent(xplore.Sched) > 0
+		out.Interesting = hs.started[keyA] >= 1 && (e.X.Spent(xplore.Sched) > 0 || len(p.Warm) > 0)
 		return out
 	}
 }
@@ -404,6 +469,19 @@ func main() {
 		mk("dup2-get-bystander-late", params{Reqs: append(dup(2), reqSpec{ID: "get", Method: "GET", Key: keyB}), Storage: "memory", Locker: "default", Sequential2: true},
 			xplore.Bounds{0, 2, 0, 0}, xplore.Bounds{0, 3, 0, 0}, false),
 	}
+	// replays of recorded keys in flight together (the answer of one must not depend on the other)
+	rp := func(id, key string) reqSpec { return reqSpec{ID: id, Method: "POST", Key: key} }
+	warmAB := []reqSpec{rp("warmA", keyA), rp("warmB", keyB)}
+	scenarios = append(scenarios,
+		mk("replay-a-b", params{Warm: warmAB, Outer: true, Reqs: []reqSpec{rp("repA", keyA), rp("repB", keyB)}, Storage: "injected", Locker: "default"},
+			xplore.Bounds{0, 2, 0, 0}, xplore.Bounds{0, -1, 0, 0}, true),
+		mk("replay-a-b-memory", params{Warm: warmAB, Outer: true, Reqs: []reqSpec{rp("repA", keyA), rp("repB", keyB)}, Storage: "memory", Locker: "default"},
+			xplore.Bounds{0, 2, 0, 0}, xplore.Bounds{0, -1, 0, 0}, true),
+		mk("replay-a-b-a-keep", params{Warm: warmAB, Outer: true, Reqs: []reqSpec{rp("repA1", keyA), rp("repB", keyB), rp("repA2", keyA)}, Storage: "injected", Locker: "default", Keep: []string{"X-A"}},
+			xplore.Bounds{0, 2, 0, 0}, xplore.Bounds{0, 3, 0, 0}, false),
+		mk("replay-a-first-b", params{Warm: warmAB[:1], Outer: true, Reqs: []reqSpec{rp("repA", keyA), rp("firstB", keyB), {ID: "nokey", Method: "POST"}}, Storage: "injected", Locker: "default"},
+			xplore.Bounds{0, 2, 0, 0}, xplore.Bounds{0, 3, 0, 0}, false),
+	)
 	schedx.RunAll(r, scenarios, 16)
 	if r.IsWorker() {
 		r.FinishWorker()
